@@ -28,7 +28,7 @@ def shape(rng, nmax, mmax, nmin=1, mmin=1, force_nonsquare=0.7, big=0.15, bigmin
         if nmax >= bigmin and rng.random() < big:
             n = rng.randint(bigmin, nmax)
         else:
-            n = rng.randint(nmin, min(nmax, max(nmin, 7)))
+            n = rng.randint(nmin, min(nmax, max(nmin + 3, 7)))
         m = rng.randint(mmin, mmax)
         if n != m or rng.random() > force_nonsquare or (nmax == nmin and mmax == mmin):
             return n, m
